@@ -710,6 +710,13 @@ func c18Plan(r *Run) []c18Spec {
 			}
 			add(s)
 		}
+		{
+			// three databases with the default configuration created with one options value, the
+			// last one closed before the instance
+			s := c18Spec{Kind: "iclose", When: whenInstance, NDB: 3, Writes: 2, Times: 1, Variant: "storeclosed"}
+			s.Cfgs = []c18Cfg{{Repl: true}, {Repl: true}, {Repl: true}}
+			add(s)
+		}
 		for i := 0; i < 3; i++ {
 			s := c18Spec{Kind: "iclose", When: whenInstanceStuck, Variant: "stuckfetch", NDB: 2 + r.Rng.Intn(2), Writes: 1 + r.Rng.Intn(3), Times: 1 + r.Rng.Intn(2), Mem: i == 2}
 			s.Cfgs = icfgs(s.NDB, s.Mem)
@@ -2082,6 +2089,10 @@ func c18InstanceClose(r *Run, sp c18Spec, out *c18Result) error {
 	var stores []iface.Store
 	var addrs []string
 	acked := map[string][]string{}
+	shareOpts := sp.Variant == "storeclosed" || (sp.Variant == "idle" && sp.Writes%2 == 0)
+	var sharedOpts *orbitdb.CreateDBOptions
+	var cfg0 c18Cfg
+	lastShared := 0 // the last database created with the shared options value (0: none but the first)
 	for k := 0; k < sp.NDB; k++ {
 		typ := types[r.Rng.Intn(3)]
 		cfg := c18Cfg{Repl: true, Mem: sp.Mem}
@@ -2089,8 +2100,19 @@ func c18InstanceClose(r *Run, sp c18Spec, out *c18Result) error {
 			cfg = sp.Cfgs[k]
 		}
 		name := fmt.Sprintf("db-%s-%d", label, k)
+		// the databases that have the configuration of the first one are created with ONE options
+		// value (a caller may keep its options in a variable; only the access controller is set
+		// anew): what Create leaves in it must not tie the databases together
+		opts := cfg.on(A, cfg.dbOpts(0, acBoth(A)))
+		if shareOpts && k == 0 {
+			sharedOpts, cfg0 = opts, cfg
+		} else if shareOpts && cfg == cfg0 {
+			sharedOpts.AccessController = acBoth(A)
+			opts = sharedOpts
+			lastShared = k
+		}
 		st, err := withMaxHistory(A.Orbit, map[bool]int{true: 2, false: 0}[cfg.Limited], func() (iface.Store, error) {
-			return A.Orbit.Create(ctx, name, typ, cfg.on(A, cfg.dbOpts(0, acBoth(A))))
+			return A.Orbit.Create(ctx, name, typ, opts)
 		})
 		if err != nil {
 			return err
@@ -2104,7 +2126,7 @@ func c18InstanceClose(r *Run, sp c18Spec, out *c18Result) error {
 		}
 		acked[st.Address().String()] = c18Hashes(st)
 	}
-	extra := map[string]interface{}{"databases": sp.NDB, "variant": sp.Variant}
+	extra := map[string]interface{}{"databases": sp.NDB, "variant": sp.Variant, "shared_options_value": shareOpts && lastShared > 0}
 	var classes []int
 	var msgs []string
 	when := whenInstance
@@ -2168,7 +2190,10 @@ func c18InstanceClose(r *Run, sp c18Spec, out *c18Result) error {
 		extra["write_outcome"] = clsName[w.cls]
 		out.addAfter(opInflightPersist, w.cls, w.msg, map[string]interface{}{"instance_close": true})
 	case "storeclosed":
-		if c, m := callClass(10*time.Second, stores[0].Close); c != clsOK {
+		// (the database closed first is the LAST one created with the shared options value, the
+		// first database when nothing is shared)
+		extra["closed_first"] = lastShared
+		if c, m := callClass(10*time.Second, stores[lastShared].Close); c != clsOK {
 			out.addAfter(opClose, c, m, map[string]interface{}{"note": "store close before instance close"})
 		}
 		classes, msgs = closeMany(sp.Times, sp.Concurrent, A.Orbit.Close)
